@@ -2,6 +2,8 @@
 pub mod bodies;
 #[cfg(not(kani))]
 pub mod render;
+#[path = "../../../corpus/origin_types.rs"]
+pub mod origin;
 pub mod sch;
 pub mod src;
 pub mod tok;
